@@ -3,7 +3,7 @@
    every operation as a list of integers (compared exactly with the
    implementation's state). Model file. *)
 From Coq Require Import QArith Qminmax List Bool Arith ZArith.
-From WSI Require Import Vqip Pow Enc Tank Arc QTank Distrib Kinds Boundary.
+From WSI Require Import Vqip Pow Enc Tank Arc QTank Distrib Kinds Boundary Net.
 Import ListNotations.
 Open Scope Q_scope.
 
@@ -280,5 +280,34 @@ Fixpoint run_boundary (area coef : Q) (load : vec) (pop pc : Q) (dload : vec) (c
         | BHouse T => (t, ev (house_demand pop pc dload (house_temperature T ctemp w) others))
         end in
       out ++ ev (t_sto t') ++ run_boundary area coef load pop pc dload ctemp w others t' r
+  end.
+
+(* ---------------- whole networks (Net.v) ---------------- *)
+Inductive netop :=
+| NOrch (o : ocall) | NPush (a : nat) (v : vqip) | NPull (a : nat) (q : Q)
+| NPushCheck (a : nat) (ov : option vqip) | NPullCheck (a : nat) (ov : option Q) | NEnd.
+Definition enc_net (s : net) : list Z :=
+  flat_map (fun N => ev (t_sto (nn_tank N)) ++ ev (nn_unrouted N)) (n_nodes s)
+  ++ flat_map (fun A => enc_arc (na_arc A)) (n_arcs s).
+Definition net_end (s : net) : net :=
+  mkNet (map (fun N => set_unrouted vzero (set_tank (t_end (nn_tank N) (20#1)) N)) (n_nodes s))
+        (map (fun A => set_arc (a_end (na_arc A)) A) (n_arcs s)).
+Definition net_step (maxiter fuel : nat) (s : net) (o : netop) : option (net * list Z) :=
+  match o with
+  | NOrch oc => match orch maxiter fuel s oc with None => None | Some s' => Some (s', []) end
+  | NPush a v => match exec maxiter fuel s (RSendPush a v) with None => None | Some (s', r) => Some (s', ev r) end
+  | NPull a q => match exec maxiter fuel s (RSendPull a q) with None => None | Some (s', r) => Some (s', ev r) end
+  | NPushCheck a ov => match exec maxiter fuel s (RSendPushCheck a ov) with None => None | Some (s', r) => Some (s', ev r) end
+  | NPullCheck a ov => match exec maxiter fuel s (RSendPullCheck a ov) with None => None | Some (s', r) => Some (s', ev r) end
+  | NEnd => Some (net_end s, [])
+  end.
+Fixpoint run_net (maxiter fuel : nat) (s : net) (ops : list netop) : list Z :=
+  match ops with
+  | [] => []
+  | o :: r =>
+      match net_step maxiter fuel s o with
+      | None => [(-999)%Z]
+      | Some (s', out) => out ++ enc_net s' ++ run_net maxiter fuel s' r
+      end
   end.
 End Dim.
